@@ -114,6 +114,13 @@ func (w *wg) jacIs(t *rapid.T, what string, jac interface{}, want ref.Pt) {
 	if !got.Inf && !reg.Bool(jac, "IsOnCurve") {
 		t.Fatalf("%s: %s: result %s is a curve point but IsOnCurve()=false on the returned representative", g.ID(), what, g.E.Str(got))
 	}
+	// the identity as RETURNED by a group operation must be recognised by the Jacobian-level predicates too
+	// (a caller may test the sum before converting it); representatives of O handed in by the harness with
+	// Y^2 != X^3 are a different matter and are not generated
+	if got.Inf && (!reg.Bool(jac, "IsOnCurve") || !reg.Bool(jac, "IsInSubGroup")) {
+		t.Fatalf("%s: %s: the result is the identity but the returned representative %s has IsOnCurve()=%v IsInSubGroup()=%v",
+			g.ID(), what, ref.String(reg.Flatten(jac)), reg.Bool(jac, "IsOnCurve"), reg.Bool(jac, "IsInSubGroup"))
+	}
 }
 
 func (w *wg) poisonAff() interface{} { return w.g.FromRef(w.g.Gen) }
